@@ -24,11 +24,11 @@ Definition handover_log (h : handover) : log :=
   handed_over (h_init h) (h_tlen h) (h_mtu h) (h_session h) (h_stream h) (h_n0 h) (h_off0 h).
 
 (* states of a shared publication reachable by a history *)
-Definition reachable (m : mode) (rv : Z -> Z -> Z) (s : pubstate) : Prop :=
+Definition reachable (m : mode) (rv : Z -> Z -> list Z -> Z) (s : pubstate) : Prop :=
   exists h ops, handover_ok h /\ hist_ok (handover_log h) ops /\ s = pub_run m rv (pub_init (handover_log h)) ops.
 
 (* states of an exclusive publication created on a handed-over log and driven by a history *)
-Definition xreachable (m : mode) (rv : Z -> Z -> Z) (x : xpub) : Prop :=
+Definition xreachable (m : mode) (rv : Z -> Z -> list Z -> Z) (x : xpub) : Prop :=
   exists h ops x0, handover_ok h /\ hist_ok (handover_log h) ops /\ xpub_new (handover_log h) = Ok x0 /\ x = xpub_run m rv x0 ops.
 
 Lemma reachable_inv m rv s : reachable m rv s -> exists n off, pub_inv n off s.
@@ -58,7 +58,7 @@ Proof. intros (h & ops & Hh & Hok & ->) Ho. exists h, (ops ++ [o]). split; [assu
   - clear. generalize (pub_init (handover_log h)). induction ops as [|a r IH]; intros s0; [reflexivity|]. cbn [pub_run app]. apply IH. Qed.
 
 Section Shared.
-Variables (m : mode) (rv : Z -> Z -> Z) (s : pubstate).
+Variables (m : mode) (rv : Z -> Z -> list Z -> Z) (s : pubstate).
 Hypothesis Hr : reachable m rv s.
 
 Theorem c04_accept o s' p : op_ok (ps_log s) o -> is_append o = true -> pub_step m rv s o = (s', Ok p) ->
@@ -117,7 +117,7 @@ Proof. intros Hok Ha. destruct (reachable_inv m rv s Hr) as (n & off & Hinv). ea
 End Shared.
 
 Section Exclusive.
-Variables (m : mode) (rv : Z -> Z -> Z) (x : xpub).
+Variables (m : mode) (rv : Z -> Z -> list Z -> Z) (x : xpub).
 Hypothesis Hr : xreachable m rv x.
 
 Theorem c04x_accept o x' p : op_ok (xlog x) o -> is_xappend o = true -> xpub_step m rv x o = (x', Ok p) ->
